@@ -63,12 +63,16 @@ Load(k) == IF Fresh(k) THEN table' = table
            ELSE table' = [table EXCEPT ![k] = [for |-> "#none", ver |-> 0]]
 LoadOk(k) == Fresh(k) \/ Cur(k).good
 
+MaybeLoad(k) == table' = table \/ Load(k)
+AnyRes(op) == \E r \in {"ok", "err"} : Ret(op, r)
+
 SetRulesDir ==
   /\ ready' = TRUE
   /\ table' = IF SameDirKeepsTables /\ ready THEN table ELSE [k \in Kinds |-> [for |-> "#none", ver |-> 0]]
   /\ repointVer' = [k \in Kinds |-> [x \in DOMAIN file[k] |-> file[k][x].ver]]
+  /\ highlight' \in (IF ready THEN {highlight} ELSE {"Off", "EndPoints"})      \* the first one reads prefs.yaml
   /\ Ret("set_rules_dir", "ok")
-  /\ UNCHANGED <<lang, code, highlight, expr, pos, stack, markers, file, checkAll>>
+  /\ UNCHANGED <<lang, code, expr, pos, stack, markers, file, checkAll>>
 
 SetLanguage(l) == /\ ready /\ lang' = l /\ Ret("set_preference", "ok")
                   /\ UNCHANGED <<ready, code, highlight, expr, pos, stack, markers, table, file, checkAll, repointVer>>
@@ -99,46 +103,42 @@ Getter(k) ==
   /\ Load(k)
   /\ Ret(IF k = "speech" THEN "get_spoken_text" ELSE "get_braille", IF LoadOk(k) THEN "ok" ELSE "err")
   /\ UNCHANGED <<ready, lang, code, highlight, expr, pos, stack, markers, file, checkAll, repointVer>>
-GetterNoExpr(k) ==
-  /\ ready /\ expr = NoExpr /\ Ret(IF k = "speech" THEN "get_spoken_text" ELSE "get_braille", "err")
-  /\ UNCHANGED <<ready, lang, code, highlight, expr, pos, stack, markers, table, file, checkAll, repointVer>>
+GetterNoExpr(k) ==          \* nothing to speak: the empty answer or an error, after looking at the rule table all the same
+  /\ ready /\ expr = NoExpr /\ MaybeLoad(k)
+  /\ AnyRes(IF k = "speech" THEN "get_spoken_text" ELSE "get_braille")
+  /\ UNCHANGED <<ready, lang, code, highlight, expr, pos, stack, markers, file, checkAll, repointVer>>
 
-(* do_navigate_command: a move goes to some node of the expression and remembers where it was *)
+(* do_navigate_command.  What a command says comes from the navigation rules and, when it reads part of the expression, from the
+   speech rules: it may or may not need the speech table, and it may fail for reasons of its own (nothing to move to, no such
+   marker, a table that does not load) - also AFTER it has moved.  What the model fixes is where the position can be. *)
+Push == IF Len(stack) < MaxStack THEN Append(stack, pos) ELSE stack
 Move(n) ==
   /\ ready /\ expr # NoExpr /\ n \in Nodes
-  /\ Load("speech")
-  /\ IF LoadOk("speech")
-     THEN /\ pos' = n /\ stack' = IF n # pos /\ Len(stack) < MaxStack THEN Append(stack, pos) ELSE stack
-          /\ Ret("do_navigate_command", "ok")
-     ELSE /\ pos' \in {pos, n} /\ stack' \in {stack, IF Len(stack) < MaxStack THEN Append(stack, pos) ELSE stack}
-          /\ Ret("do_navigate_command", "err")
+  /\ MaybeLoad("speech")
+  /\ pos' = n /\ stack' \in {stack, Push}
+  /\ AnyRes("do_navigate_command")
   /\ UNCHANGED <<ready, lang, code, highlight, expr, markers, file, checkAll, repointVer>>
 MoveBack ==
   /\ ready /\ expr # NoExpr /\ stack # <<>>
+  /\ MaybeLoad("speech")
   /\ pos' = stack[Len(stack)] /\ stack' = SubSeq(stack, 1, Len(stack) - 1)
-  /\ Ret("do_navigate_command", "ok")
-  /\ UNCHANGED <<ready, lang, code, highlight, expr, markers, table, file, checkAll, repointVer>>
-SetMarker == /\ ready /\ expr # NoExpr /\ markers' = markers \cup {pos} /\ Ret("do_navigate_command", "ok")
-             /\ UNCHANGED <<ready, lang, code, highlight, expr, pos, stack, table, file, checkAll, repointVer>>
+  /\ AnyRes("do_navigate_command")
+  /\ UNCHANGED <<ready, lang, code, highlight, expr, markers, file, checkAll, repointVer>>
+SetMarker == /\ ready /\ expr # NoExpr /\ markers' = markers \cup {pos} /\ MaybeLoad("speech") /\ AnyRes("do_navigate_command")
+             /\ UNCHANGED <<ready, lang, code, highlight, expr, pos, stack, file, checkAll, repointVer>>
 GoToMarker(m) == /\ ready /\ expr # NoExpr /\ m \in markers
-                 /\ pos' = m /\ stack' = IF Len(stack) < MaxStack THEN Append(stack, pos) ELSE stack
-                 /\ Ret("do_navigate_command", "ok")
-                 /\ UNCHANGED <<ready, lang, code, highlight, expr, markers, table, file, checkAll, repointVer>>
+                 /\ MaybeLoad("speech")
+                 /\ pos' = m /\ stack' \in {stack, Push}
+                 /\ AnyRes("do_navigate_command")
+                 /\ UNCHANGED <<ready, lang, code, highlight, expr, markers, file, checkAll, repointVer>>
 SetNavNode(n) ==
   /\ ready /\ expr # NoExpr
-  /\ IF n \in Nodes THEN pos' = n /\ stack' = <<>> /\ Ret("set_navigation_node", "ok")
+  /\ IF n \in Nodes THEN pos' = n /\ stack' \in {<<>>, stack, Push} /\ Ret("set_navigation_node", "ok")
      ELSE UNCHANGED <<pos, stack>> /\ Ret("set_navigation_node", "err")
   /\ UNCHANGED <<ready, lang, code, highlight, expr, markers, table, file, checkAll, repointVer>>
-
-(* a reading command speaks and leaves the position alone; any navigation command may also fail for reasons of its own (nothing
-   to move to, no such marker): then the position is still inside the expression *)
-ReadCmd == /\ ready /\ expr # NoExpr /\ Load("speech")
-           /\ Ret("do_navigate_command", IF LoadOk("speech") THEN "ok" ELSE "err")
-           /\ UNCHANGED <<ready, lang, code, highlight, expr, pos, stack, markers, file, checkAll, repointVer>>
-NavErr == /\ ready /\ expr # NoExpr /\ Load("speech")
-          /\ pos' \in Nodes /\ stack' \in {stack, IF Len(stack) < MaxStack THEN Append(stack, pos) ELSE stack}
-          /\ Ret("do_navigate_command", "err")
-          /\ UNCHANGED <<ready, lang, code, highlight, expr, markers, file, checkAll, repointVer>>
+\* with no expression every navigation entry point answers Err and changes nothing
+NoExprErr(op) == /\ ready /\ expr = NoExpr /\ Ret(op, "err")
+                 /\ UNCHANGED <<ready, lang, code, highlight, expr, pos, stack, markers, table, file, checkAll, repointVer>>
 SetCheck(b) == /\ ready /\ checkAll' = b /\ Ret("set_preference", "ok")
                /\ UNCHANGED <<ready, lang, code, highlight, expr, pos, stack, markers, table, file, repointVer>>
 
@@ -160,7 +160,7 @@ Repair(k, x) == /\ file[k][x].ver < MaxVer /\ ~file[k][x].good /\ file' = [file 
 Next == \/ SetRulesDir
         \/ \E l \in Langs : SetLanguage(l)
         \/ \E c \in Codes : SetCode(c)
-        \/ \E h \in {"Off", "EndPoints", "All"} : SetHighlight(h)
+        \/ \E h \in {"Off", "EndPoints", "All", "FirstChar"} : SetHighlight(h)
         \/ \E op \in {"set_preference", "set_mathml", "get_spoken_text", "get_braille", "do_navigate_command"} : NotReady(op)
         \/ \E e \in Exprs, wf \in BOOLEAN : SetMathML(e, wf)
         \/ \E k \in Kinds : Getter(k) \/ GetterNoExpr(k)
@@ -169,7 +169,7 @@ Next == \/ SetRulesDir
         \/ \E f \in BOOLEAN : Route(f)
         \/ \E k \in Kinds : \E x \in DOMAIN file[k] : Damage(k, x) \/ Repair(k, x)
         \/ \E b \in BOOLEAN : SetCheck(b)
-        \/ ReadCmd \/ NavErr
+        \/ \E op \in {"do_navigate_command", "set_navigation_node", "get_navigation_node_from_braille_position"} : NoExprErr(op)
 Spec == Init /\ [][Next]_vars
 
 (***************************************************************************)
@@ -184,8 +184,8 @@ FreshAfter(k) == LET sel == IF k = "speech" THEN lang' ELSE code' IN
                  /\ table'[k].for = sel
                  /\ (checkAll => table'[k].ver = file'[k][sel].ver)
                  /\ table'[k].ver >= repointVer'[k][sel]             \* C14: set_rules_dir makes the session look at the files again
-AnswerIsFresh == [][file' = file /\ last'.res = "ok" /\ last'.op = "get_spoken_text" => FreshAfter("speech")]_vars
-AnswerIsFreshBraille == [][file' = file /\ last'.res = "ok" /\ last'.op \in {"get_braille", "get_navigation_node_from_braille_position"} => FreshAfter("braille")]_vars
+AnswerIsFresh == [][file' = file /\ expr # NoExpr /\ last'.res = "ok" /\ last'.op = "get_spoken_text" => FreshAfter("speech")]_vars
+AnswerIsFreshBraille == [][file' = file /\ expr # NoExpr /\ last'.res = "ok" /\ last'.op \in {"get_braille", "get_navigation_node_from_braille_position"} => FreshAfter("braille")]_vars
 \* C20: a query never changes a preference (action property, checked as: the highlight style is only changed by set_preference)
 QueriesKeepPreferences == [][last'.op \in {"get_spoken_text", "get_braille", "get_navigation_node_from_braille_position", "do_navigate_command", "set_navigation_node", "set_mathml"}
                               => highlight' = highlight /\ lang' = lang /\ code' = code]_vars
